@@ -36,7 +36,7 @@ class XPathFunction(XPathToken):
     __name__: str
     _qname: Optional[QName] = None
     pattern = r'(?<!\$)\b[^\d\W][\w.\-\xb7\u0300-\u036F\u203F\u2040]*' \
-              r'(?=\s*(?:\(\:.*\:\))?\s*\((?!\:))'
+              r'(?=\s*(?:\(\:(?s:.*)\:\))?\s*\((?!\:))'
 
     sequence_types: ta.SequenceTypesType = ()
     "Sequence types of arguments and of the return value of the function."
